@@ -2,34 +2,77 @@
    operation sequence leaves a file system described by some muxer state (Inv). *)
 From Coq Require Import ZArith Bool List Lia.
 From Lal Require Import Common.LBytes Hls.HlsFloat Hls.HlsFs Hls.HlsPlaylist Hls.HlsMuxer Hls.HlsConsistent
-  Hls.HlsFsProofs Hls.HlsFloatProofs Hls.HlsInv Hls.HlsInvProofs.
+  Hls.HlsFsProofs Hls.HlsFloatProofs Hls.HlsInv Hls.HlsInvProofs Hls.HlsLiveProofs.
 Open Scope Z_scope.
 
 
 
-Lemma inv_new c : cfg_ok c -> Inv c (new_mux c) [].
+(* ---------- how many playlist versions one event can publish ---------- *)
+Definition count_live (l : list op) : Z := Z.of_nat (length (filter is_live_replace l)).
+
+Lemma count_live_app a b : count_live (a ++ b) = count_live a + count_live b.
+Proof. unfold count_live. rewrite filter_app, app_length. lia. Qed.
+
+Lemma write_record_count c m s : count_live (snd (write_record c m s)) = 0.
 Proof.
-  intros (Hn & Ht & Hms & Hst). unfold new_mux. constructor.
-  - repeat split; try lia; apply Hst.
-  - cbn. lia.
-  - cbn. apply repeat_length.
-  - cbn. reflexivity.
-  - intros i Hi Hw. unfold nclosed in Hw. cbn in Hw. lia.
-  - cbn. discriminate.
-  - intros _ Hc. unfold nclosed in Hc. cbn in Hc. unfold cap in Hc. lia.
-  - intros j _. unfold get_slot. cbn. now rewrite nth_repeat_any.
-  - intros i Hi Hw. unfold nclosed in Hw. cbn in Hw. lia.
-  - cbn. discriminate.
-  - reflexivity.
-  - unfold nclosed. cbn. lia.
-  - intros j. unfold get_slot. cbn. rewrite nth_repeat_any. apply dur_ok_fl0.
+  unfold write_record. destruct (fs_lookup PRec s); [|reflexivity]. destruct (update_target _ _); reflexivity.
 Qed.
 
-Definition winv (c : cfg) (st : phase) (w : world) (m : mux) : Prop :=
+Lemma close_count c m s l : 0 <= count_live (snd (close_fragment c m s l)) <= 1.
+Proof.
+  unfold close_fragment. destruct (negb (m_opened m)); [cbn; lia|].
+  match goal with |- context [if ?b then write_record ?c ?m ?s else ?x] =>
+    pose proof (write_record_count c m s) as Hw; destruct b end.
+  - destruct (write_record _ _ _) as [m2 o2]. cbn [snd] in *. rewrite !count_live_app, Hw.
+    destruct (c_mode c =? 2); [destruct (fi_named _)|]; cbn; lia.
+  - cbn [snd]. rewrite !count_live_app. destruct (c_mode c =? 2); [destruct (fi_named _)|]; cbn; lia.
+Qed.
+
+Lemma reopen_count c m s ts d1 d2 now : 0 <= count_live (snd (reopen c m s ts d1 d2 now)) <= 1.
+Proof.
+  unfold reopen. destruct d1; [|cbn; lia].
+  pose proof (close_count c m s false) as Hc. destruct (close_fragment c m s false) as [m1 o1].
+  unfold open_fragment. cbn [snd] in *. rewrite count_live_app. cbn. lia.
+Qed.
+
+Lemma update_count c m s ts b now : 0 <= count_live (snd (update_fragment c m s ts b now)) <= 2.
+Proof.
+  unfold update_fragment. destruct (m_opened m); [|pose proof (reopen_count c m s ts b true now); lia].
+  assert (H1 : 0 <= count_live (snd (if force_split c m ts then reopen c m s ts true true now else (m, []))) <= 1).
+  { destruct (force_split c m ts); [apply reopen_count|cbn; lia]. }
+  destruct (if force_split c m ts then reopen c m s ts true true now else (m, [])) as [m1 o1]. cbn [snd] in H1.
+  destruct (f_ltb _ _); [cbn [snd]; lia|].
+  pose proof (reopen_count c (upd_dur m1 (slot c m (m_nfrags m)) ts) (apply_all s o1) ts b false now) as H3.
+  destruct (reopen _ _ _ _ _ _ _) as [m3 o3]. cbn [snd] in *. rewrite count_live_app. lia.
+Qed.
+
+Lemma feed_count c m s a p d b n pk : 0 <= count_live (snd (feed c m s a p d b n pk)) <= 2.
+Proof.
+  unfold feed. pose proof (update_count c m s (if a then p else d) b n) as H.
+  destruct (update_fragment _ _ _ _ _ _) as [m1 o1]. cbn [snd] in H.
+  destruct (m_opened m1); cbn [snd]; [|exact H]. rewrite count_live_app. cbn. lia.
+Qed.
+
+(* ---------- a chain closes at most as many fragments as it publishes playlist versions ---------- *)
+Lemma chain_nclosed_le c m s ops m' : chain c m s ops m' -> 0 <= nclosed m -> nclosed m' <= nclosed m + count_live ops.
+Proof.
+  induction 1 as [m s|m s o m1 ops m3 Hr Hi Hc IH|m s m1 ops m3 Hl Hsp Hn Hi Hc IH]; intros H0.
+  - unfold count_live. cbn. lia.
+  - assert (Hc1 : count_live (o :: ops) = (if is_live_replace o then 1 else 0) + count_live ops).
+    { unfold count_live. cbn [filter]. destruct (is_live_replace o); cbn [length]; lia. }
+    assert (H1 : nclosed m1 <= nclosed m + (if is_live_replace o then 1 else 0) /\ 0 <= nclosed m1).
+    { destruct o; cbn [rstep] in Hr; try (destruct Hr as (_ & _ & -> & _); destruct (is_live_replace _); lia).
+      - destruct Hr as (_ & -> & _). cbn. lia.
+      - subst m1. unfold nclosed in *. cbn. lia. }
+    rewrite Hc1. destruct H1 as [H1 H2]. specialize (IH H2). lia.
+  - rewrite Hn in IH. apply IH. exact H0.
+Qed.
+
+Definition winv (c : cfg) (st : phase) (n : Z) (w : world) (m : mux) : Prop :=
   match st with
-  | Clean => w_mux w = None /\ w_fs w = [] /\ m = new_mux c
-  | Alive r => w_mux w = Some m /\ Inv c m (w_fs w) /\ (r = true -> good_pp (m_patpmt m))
-  | Dirty => w_mux w = None /\ Inv c m (w_fs w)
+  | Clean => w_mux w = None /\ w_fs w = [] /\ m = new_mux c /\ 0 <= n
+  | Alive r => w_mux w = Some m /\ Inv c m (w_fs w) /\ (r = true -> good_pp (m_patpmt m)) /\ 0 <= nclosed m <= n
+  | Dirty => w_mux w = None /\ Inv c m (w_fs w) /\ 0 <= nclosed m <= n
   end.
 
 Definition next_phase (c : cfg) (st : phase) (e : event) : phase :=
@@ -40,20 +83,30 @@ Definition next_phase (c : cfg) (st : phase) (e : event) : phase :=
   | Alive r, EvDispose => Dirty
   | Alive r, _ => Alive r
   | Dirty, EvCleanup => if (c_mode c =? 1) || (c_mode c =? 2) then Clean else Dirty
+  | Dirty, EvNew => Alive false
   | Dirty, _ => Dirty
   end.
 
-Definition wf_head (c : cfg) (st : phase) (e : event) : Prop :=
+Definition next_n (c : cfg) (st : phase) (n : Z) (e : event) : Z :=
+  match st, e with
+  | Alive r, EvFeed _ _ _ _ _ _ => n + 2
+  | Alive r, EvDispose => n + 1
+  | Dirty, EvCleanup => if (c_mode c =? 1) || (c_mode c =? 2) then 0 else n
+  | _, _ => n
+  end.
+
+Definition wf_head (c : cfg) (st : phase) (n : Z) (e : event) : Prop :=
   match st, e with
   | Alive r, EvPatPmt b => good_pp b
   | Alive r, EvFeed _ _ _ _ _ pk => r = true /\ whole_pkts pk
-  | Dirty, EvNew => False
+  | Dirty, EvNew => n <= max_int32
   | _, _ => True
   end.
 
-Lemma wf_evs_cons c st e t : wf_evs c st (e :: t) -> wf_head c st e /\ wf_evs c (next_phase c st e) t.
+Lemma wf_evs_cons c st n e t : wf_evs c st n (e :: t) -> wf_head c st n e /\ wf_evs c (next_phase c st e) (next_n c st n e) t.
 Proof.
   destruct st as [|r|]; destruct e; cbn; intuition.
+  - destruct ((c_mode c =? 1) || (c_mode c =? 2)); assumption.
 Qed.
 
 Lemma removeall_chain c m s : cfg_ok c -> chain c m s [ORemoveAll PDir] (new_mux c) /\ apply s (ORemoveAll PDir) = [].
@@ -63,79 +116,94 @@ Proof.
 Qed.
 
 Lemma mle_with_patpmt m b : mle m (with_patpmt m b).
-Proof.
-  unfold mle, with_patpmt, nclosed. cbn. split; [lia|]. split; [lia|]. exists []. now rewrite app_nil_r.
-Qed.
+Proof. apply mle_same_shape; reflexivity. Qed.
 
-Lemma step_ok c st w m e mx o :
-  cfg_ok c -> winv c st w m -> wf_head c st e -> step c w e = (mx, o) ->
-  exists m1, chain c m (w_fs w) o m1 /\ winv c (next_phase c st e) (mkworld mx (apply_all (w_fs w) o)) m1.
+Lemma same_pub_with_patpmt m b : same_pub m (with_patpmt m b).
+Proof. split; [reflexivity|]. exists []. cbn. now rewrite app_nil_r. Qed.
+
+Lemma inv_nclosed_nonneg c m s : Inv c m s -> 0 <= nclosed m.
+Proof. intros [_ H2 _ _ _ _ _ _ _ _ _ _ _]. unfold nclosed. lia. Qed.
+
+Lemma step_ok c st n w m e mx o :
+  cfg_ok c -> winv c st n w m -> wf_head c st n e -> step c w e = (mx, o) ->
+  exists m1, chain c m (w_fs w) o m1 /\ winv c (next_phase c st e) (next_n c st n e) (mkworld mx (apply_all (w_fs w) o)) m1.
 Proof.
   intros Hc HW Hh E. destruct w as [wm s]. cbn [w_fs] in *.
   destruct st as [|r|].
   - (* Clean *)
-    destruct HW as (Hm & Hs & ->). cbn in Hm, Hs. subst wm s.
-    destruct e; cbn in E; injection E as <- <-; cbn [next_phase].
-    + exists (new_mux c). split.
-      * apply chain_irrelevant_op; [now apply inv_new|exact I|reflexivity|intros p _ []].
-      * cbn. split; [reflexivity|]. split; [now apply inv_new|discriminate].
-    + exists (new_mux c). split; [apply ch_nil|]. cbn. auto.
-    + exists (new_mux c). split; [apply ch_nil|]. cbn. auto.
-    + exists (new_mux c). split; [apply ch_nil|]. cbn. auto.
-    + exists (new_mux c). destruct ((c_mode c =? 1) || (c_mode c =? 2)).
+    destruct HW as (Hm & Hs & -> & Hn0). cbn in Hm, Hs. subst wm s.
+    destruct e; cbn [step w_mux w_fs] in E; cbn [next_phase next_n].
+    + destruct (start_mux c []) as [m1 o1] eqn:E1. injection E as <- <-.
+      destruct (start_ok c (new_mux c) [] m1 o1 Hc (inv_new c Hc) ltac:(unfold nclosed, max_int32; cbn; lia) E1) as (A & B & C & D).
+      exists m1. split; [exact A|]. cbn. split; [reflexivity|]. split; [exact B|]. split; [discriminate|].
+      rewrite C. unfold nclosed. cbn. lia.
+    + injection E as <- <-. exists (new_mux c). split; [apply ch_nil|]. cbn. auto.
+    + injection E as <- <-. exists (new_mux c). split; [apply ch_nil|]. cbn. auto.
+    + injection E as <- <-. exists (new_mux c). split; [apply ch_nil|]. cbn. auto.
+    + injection E as <- <-. exists (new_mux c). destruct ((c_mode c =? 1) || (c_mode c =? 2)).
       * split; [now apply removeall_chain|]. cbn. auto.
       * split; [apply ch_nil|]. cbn. auto.
   - (* Alive *)
-    destruct HW as (Hm & HI & Hr). cbn in Hm, HI. subst wm.
-    destruct e; cbn [step w_mux w_fs] in E; cbn [next_phase].
+    destruct HW as (Hm & HI & Hr & Hn). cbn in Hm, HI. subst wm.
+    destruct e; cbn [step w_mux w_fs] in E; cbn [next_phase next_n].
     + injection E as <- <-. exists m. split; [apply ch_nil|]. cbn. auto.
     + injection E as <- <-. exists (with_patpmt m b). split.
-      * eapply ch_silent; [| |apply inv_with_patpmt; exact HI|apply ch_nil].
+      * eapply ch_silent; [| | |apply inv_with_patpmt; exact HI|apply ch_nil].
         -- apply mle_with_patpmt.
+        -- apply same_pub_with_patpmt.
         -- reflexivity.
-      * cbn. split; [reflexivity|]. split; [now apply inv_with_patpmt|]. intros _. destruct m; exact Hh.
-    + destruct (feed c m s audio pts dts boundary now pk) as [m1 o1] eqn:E1. injection E as <- <-.
-      destruct Hh as [-> Hpk].
+      * cbn. split; [reflexivity|]. split; [now apply inv_with_patpmt|]. split; [|exact Hn]. intros _. destruct m; exact Hh.
+    + pose proof (feed_count c m s audio pts dts boundary now pk) as Hcnt.
+      destruct (feed c m s audio pts dts boundary now pk) as [m1 o1] eqn:E1. injection E as <- <-.
+      destruct Hh as [-> Hpk]. cbn [snd] in Hcnt.
       destruct (feed_ok c m s audio pts dts boundary now pk m1 o1 HI (Hr eq_refl) Hpk E1) as (A & B & C).
-      exists m1. split; [exact A|]. cbn. split; [reflexivity|]. split; [exact B|]. intros _. rewrite C. now apply Hr.
-    + destruct (close_fragment c m s true) as [m1 o1] eqn:E1. injection E as <- <-.
+      pose proof (chain_nclosed_le c m s o1 m1 A ltac:(lia)) as Hle.
+      exists m1. split; [exact A|]. cbn. split; [reflexivity|]. split; [exact B|]. split; [intros _; rewrite C; now apply Hr|].
+      pose proof (inv_nclosed_nonneg c m1 _ B). lia.
+    + pose proof (close_count c m s true) as Hcnt.
+      destruct (close_fragment c m s true) as [m1 o1] eqn:E1. injection E as <- <-. cbn [snd] in Hcnt.
       destruct (close_any c m s true m1 o1 HI E1) as (A & B & _).
-      exists m1. split; [exact A|]. cbn. auto.
+      pose proof (chain_nclosed_le c m s o1 m1 A ltac:(lia)) as Hle.
+      exists m1. split; [exact A|]. cbn. split; [reflexivity|]. split; [exact B|].
+      pose proof (inv_nclosed_nonneg c m1 _ B). lia.
     + injection E as <- <-. exists m. split; [apply ch_nil|]. cbn. auto.
   - (* Dirty *)
-    destruct HW as (Hm & HI). cbn in Hm, HI. subst wm.
-    destruct e; cbn in E; try (injection E as <- <-); cbn [next_phase].
-    + destruct Hh.
-    + exists m. split; [apply ch_nil|]. cbn. auto.
-    + exists m. split; [apply ch_nil|]. cbn. auto.
-    + exists m. split; [apply ch_nil|]. cbn. auto.
-    + destruct ((c_mode c =? 1) || (c_mode c =? 2)).
-      * exists (new_mux c). split; [now apply removeall_chain|]. cbn. auto.
+    destruct HW as (Hm & HI & Hn). cbn in Hm, HI. subst wm.
+    destruct e; cbn [step w_mux w_fs] in E; cbn [next_phase next_n].
+    + (* re-publish over the directory of the previous publication *)
+      destruct (start_mux c s) as [m1 o1] eqn:E1. injection E as <- <-. cbn [wf_head] in Hh.
+      destruct (start_ok c m s m1 o1 Hc HI ltac:(lia) E1) as (A & B & C & D).
+      exists m1. split; [exact A|]. cbn. split; [reflexivity|]. split; [exact B|]. split; [discriminate|]. lia.
+    + injection E as <- <-. exists m. split; [apply ch_nil|]. cbn. auto.
+    + injection E as <- <-. exists m. split; [apply ch_nil|]. cbn. auto.
+    + injection E as <- <-. exists m. split; [apply ch_nil|]. cbn. auto.
+    + injection E as <- <-. destruct ((c_mode c =? 1) || (c_mode c =? 2)).
+      * exists (new_mux c). split; [now apply removeall_chain|]. cbn. repeat split; lia.
       * exists m. split; [apply ch_nil|]. cbn. auto.
 Qed.
 
-Lemma run_chain c : cfg_ok c -> forall evs st w m,
-  winv c st w m -> wf_evs c st evs -> exists m', chain c m (w_fs w) (run_from c w evs) m'.
+Lemma run_chain c : cfg_ok c -> forall evs st n w m,
+  winv c st n w m -> wf_evs c st n evs -> exists m', chain c m (w_fs w) (run_from c w evs) m'.
 Proof.
-  intros Hc. induction evs as [|e t IH]; intros st w m HW Hwf.
+  intros Hc. induction evs as [|e t IH]; intros st n w m HW Hwf.
   - exists m. apply ch_nil.
   - apply wf_evs_cons in Hwf. destruct Hwf as [Hh Ht].
     cbn [run_from]. destruct (step c w e) as [mx o] eqn:E.
-    destruct (step_ok c st w m e mx o Hc HW Hh E) as (m1 & A & B).
-    destruct (IH _ _ m1 B Ht) as (m2 & C). cbn [w_fs] in C.
+    destruct (step_ok c st n w m e mx o Hc HW Hh E) as (m1 & A & B).
+    destruct (IH _ _ _ m1 B Ht) as (m2 & C). cbn [w_fs] in C.
     exists m2. eapply chain_app; eauto.
 Qed.
 
-Theorem run_is_chain c evs : cfg_ok c -> wf_evs c Clean evs -> exists m', chain c (new_mux c) [] (run c evs) m'.
+Theorem run_is_chain c evs : cfg_ok c -> wf_evs c Clean 0 evs -> exists m', chain c (new_mux c) [] (run c evs) m'.
 Proof.
-  intros Hc Hwf. unfold run. apply (run_chain c Hc evs Clean world0 (new_mux c)); [|exact Hwf].
-  cbn. auto.
+  intros Hc Hwf. unfold run. apply (run_chain c Hc evs Clean 0 world0 (new_mux c)); [|exact Hwf].
+  cbn. repeat split; lia.
 Qed.
 
 (* ---------- consequences of being a chain ---------- *)
 Lemma chain_inv_end c m s ops m' : chain c m s ops m' -> Inv c m s -> Inv c m' (apply_all s ops).
 Proof.
-  induction 1 as [m s|m s o m1 ops m3 Hr Hi Hc IH|m s m1 ops m3 Hl Hn Hi Hc IH]; intros HI.
+  induction 1 as [m s|m s o m1 ops m3 Hr Hi Hc IH|m s m1 ops m3 Hl Hsp Hn Hi Hc IH]; intros HI.
   - exact HI.
   - cbn. apply IH. exact Hi.
   - apply IH. exact Hi.
@@ -144,7 +212,7 @@ Qed.
 Lemma chain_split c m s ops m' : chain c m s ops m' -> forall a b, ops = (a ++ b)%list ->
   exists m1, chain c m s a m1 /\ chain c m1 (apply_all s a) b m'.
 Proof.
-  induction 1 as [m s|m s o m1 ops m3 Hr Hi Hc IH|m s m1 ops m3 Hl Hn Hi Hc IH]; intros a b E.
+  induction 1 as [m s|m s o m1 ops m3 Hr Hi Hc IH|m s m1 ops m3 Hl Hsp Hn Hi Hc IH]; intros a b E.
   - symmetry in E. apply app_eq_nil in E. destruct E as [-> ->]. exists m. split; apply ch_nil.
   - destruct a as [|o' a].
     + cbn in E. subst b. exists m. split; [apply ch_nil|]. cbn. eapply ch_cons; eauto.
@@ -154,19 +222,32 @@ Proof.
 Qed.
 
 Definition no_removeall (l : list op) : Prop := Forall not_removeall l.
-Definition count_live (l : list op) : Z := Z.of_nat (length (filter is_live_replace l)).
+Definition no_mkdir (l : list op) : Prop := Forall not_mkdir l.
 
 Lemma chain_mle c m s ops m' :
   chain c m s ops m' -> no_removeall ops -> mle m m' /\ nclosed m' = nclosed m + count_live ops.
 Proof.
-  induction 1 as [m s|m s o m1 ops m3 Hr Hi Hc IH|m s m1 ops m3 Hl Hn Hi Hc IH]; intros HN.
+  induction 1 as [m s|m s o m1 ops m3 Hr Hi Hc IH|m s m1 ops m3 Hl Hsp Hn Hi Hc IH]; intros HN.
   - split; [apply mle_refl|]. unfold count_live. cbn. lia.
   - inversion HN as [|? ? Ho HN']; subst. destruct (IH HN') as [A B].
     assert (Hr' : mle m m1 /\ nclosed m1 = nclosed m + (if is_live_replace o then 1 else 0)).
-    { destruct o; cbn in Ho; try contradiction; exact Hr. }
+    { destruct o; cbn in Ho; try contradiction; cbn [rstep] in Hr; try (destruct Hr as (X & _ & Y & _); split; assumption).
+      destruct Hr as (X & Y & _). split; [exact X|]. cbn. lia. }
     destruct Hr' as [C D]. split; [eapply mle_trans; eauto|].
     rewrite B, D. unfold count_live. cbn [filter]. destruct (is_live_replace o); cbn [length]; lia.
   - destruct (IH HN) as [A B]. split; [eapply mle_trans; eauto|]. lia.
+Qed.
+
+(* within one publication (no Muxer.Start in between) the ghost history only grows *)
+Lemma chain_same_pub c m s ops m' :
+  chain c m s ops m' -> no_removeall ops -> no_mkdir ops -> same_pub m m'.
+Proof.
+  induction 1 as [m s|m s o m1 ops m3 Hr Hi Hc IH|m s m1 ops m3 Hl Hsp Hn Hi Hc IH]; intros HN HM.
+  - apply same_pub_refl.
+  - inversion HN as [|? ? Ho HN']; subst. inversion HM as [|? ? Ho2 HM']; subst.
+    eapply same_pub_trans; [|apply IH; assumption].
+    destruct o; cbn in Ho, Ho2; try contradiction; cbn [rstep] in Hr; destruct Hr as (_ & X & _); exact X.
+  - eapply same_pub_trans; [exact Hsp|apply IH; assumption].
 Qed.
 
 (* every prefix is described by a muxer state; two prefixes with no RemoveAll in between by ordered states *)
@@ -187,6 +268,40 @@ Proof.
   rewrite apply_all_app, <- E2 in HIk.
   destruct (chain_mle _ _ _ _ _ B2 HN) as [C D].
   exists mj, mk. auto.
+Qed.
+
+(* ... and, when no publication starts in between, by states of the same publication *)
+Lemma chain_two_points_pub c m s ops m' j k :
+  chain c m s ops m' -> Inv c m s -> (j <= k)%nat ->
+  no_removeall (skipn j (firstn k ops)) -> no_mkdir (skipn j (firstn k ops)) ->
+  exists mj mk, Inv c mj (apply_all s (firstn j ops)) /\ Inv c mk (apply_all s (firstn k ops)) /\
+    mle mj mk /\ same_pub mj mk /\ nclosed mk = nclosed mj + count_live (skipn j (firstn k ops)).
+Proof.
+  intros Hch HI Hjk HN HM.
+  assert (E1 : ops = (firstn k ops ++ skipn k ops)%list) by (symmetry; apply firstn_skipn).
+  destruct (chain_split c m s ops m' Hch _ _ E1) as (mk & A1 & _).
+  assert (E2 : firstn k ops = (firstn j ops ++ skipn j (firstn k ops))%list).
+  { rewrite <- (firstn_skipn j (firstn k ops)) at 1. f_equal. rewrite firstn_firstn. f_equal. lia. }
+  destruct (chain_split c m s _ mk A1 _ _ E2) as (mj & B1 & B2).
+  pose proof (chain_inv_end _ _ _ _ _ B1 HI) as HIj.
+  pose proof (chain_inv_end _ _ _ _ _ B2 HIj) as HIk.
+  rewrite apply_all_app, <- E2 in HIk.
+  destruct (chain_mle _ _ _ _ _ B2 HN) as [C D].
+  pose proof (chain_same_pub _ _ _ _ _ B2 HN HM) as F.
+  exists mj, mk. auto.
+Qed.
+
+Lemma skipn_firstn_split {A} (l : list A) i j k : (i <= j)%nat -> (j <= k)%nat ->
+  skipn i (firstn k l) = (skipn i (firstn j l) ++ skipn j (firstn k l))%list.
+Proof.
+  intros Hij Hjk. destruct (Nat.le_gt_cases j (length l)) as [Hj|Hj].
+  - assert (E : firstn k l = (firstn j l ++ skipn j (firstn k l))%list).
+    { rewrite <- (firstn_skipn j (firstn k l)) at 1. f_equal. rewrite firstn_firstn. f_equal. lia. }
+    rewrite E at 1. rewrite skipn_app.
+    replace (i - length (firstn j l))%nat with 0%nat; [reflexivity|].
+    rewrite firstn_length, Nat.min_l by lia. lia.
+  - rewrite (firstn_all2 (n := j)) by lia. rewrite (firstn_all2 (n := k)) by lia.
+    rewrite (skipn_all2 (n := j)) by lia. now rewrite app_nil_r.
 Qed.
 
 Lemma chain_point c m s ops m' k :
